@@ -316,6 +316,7 @@ func execute(c *mc.Ctx, tier string, store sk.Kind, history []string, fullOracle
 				case err == nil:
 					c.Failf(S+"/ProcessBlock/accepts-block-while-halted", "history %v: ProcessBlock(%d, kind %s) returned nil although the store halted on block %d (%s) and no reorg removed a block since",
 						history[:i+1], blk.Num, e.Kind, m.Refused, m.GapKind)
+					return "failed", nil, nil
 				case !isInc(err):
 					c.Failf(S+"/ProcessBlock/wrong-error-while-halted", "history %v: ProcessBlock(%d) returned %q, want sync.ErrInconsistentState", history[:i+1], blk.Num, err)
 				default:
